@@ -55,6 +55,14 @@ function injections(p) {
       // duplicate the attribute (every family, and the control attributes)
       // (several listeners for one event are legal: the unit test event_listener pins `bind:a bind:a` as clean)
       if (!/^slot:/.test(nameTok.text) && !/^(bind|catch|mut-bind|capture-bind|capture-catch|capture-mut-bind):/.test(nameTok.text)) out.push({ name: `duplicate-attribute:${nameTok.text.replace(/[:-].*/, (m) => m[0] + '*')}@${t.off}`, text: ins(t.off, ' ' + attrText), expect: ['duplicated attribute', 'invalid attribute'], attr: nameTok.text })
+      // the same property through another family: a plain attribute and a model: binding of one name are duplicates
+      if (/^[a-z][a-z0-9]*$/i.test(nameTok.text) && !['src', 'module', 'is', 'name', 'slot', 'id', 'class', 'style', 'hidden'].includes(nameTok.text) && !/^(wx|data)-|^wx:/.test(nameTok.text)) {
+        out.push({ name: `duplicate-attribute:plain-then-model@${t.off}`, text: ins(t.off, ` model:${nameTok.text}="{{zz}}"`), expect: ['duplicated attribute', 'invalid attribute'], attr: nameTok.text })
+      }
+      // (names with hyphens are normalised differently in the two families: whether those count as one name is not asserted)
+      if (/^model:[a-z][a-z0-9]*$/i.test(nameTok.text)) {
+        out.push({ name: `duplicate-attribute:model-then-plain@${t.off}`, text: ins(t.off, ` ${nameTok.text.slice(6)}="1"`), expect: ['duplicated attribute', 'invalid attribute'], attr: nameTok.text })
+      }
       const owner = tokens.slice(0, i).reverse().find((x) => x.kind === 'tag-name')
       const ownerTag = owner ? owner.text : ''
       // (`<wxs module="m"/>` without src is a well-formed empty inline script: not a defect)
@@ -71,6 +79,9 @@ function injections(p) {
       out.push({ name: `child-under-childless:${t.node.k}@${t.off}`, text: text.slice(0, t.off) + `><x/></${tag}>` + text.slice(t.offEnd), expect: ['child nodes are not allowed for this element'] })
       out.push({ name: `child-after-comment-under-childless:${t.node.k}@${t.off}`, text: text.slice(0, t.off) + `><!-- c --><x/></${tag}>` + text.slice(t.offEnd), expect: ['child nodes are not allowed for this element'] })
       out.push({ name: `child-after-blank-under-childless:${t.node.k}@${t.off}`, text: text.slice(0, t.off) + `>\n  <x/>\n</${tag}>` + text.slice(t.offEnd), expect: ['child nodes are not allowed for this element'] })
+      // (not a defect: a comment, with or without blanks around it, is no child node)
+      // (the content of <wxs> is script text, not markup: no comments there)
+      if (t.node.k !== 'wxs') out.push({ name: `benign-comment-under-childless:${t.node.k}@${t.off}`, text: text.slice(0, t.off) + `>\n  <!-- c -->\n</${tag}>` + text.slice(t.offEnd), expect: [], benign: true })
       out.push({ name: `text-under-childless:${t.node.k}@${t.off}`, text: text.slice(0, t.off) + `>t</${tag}>` + text.slice(t.offEnd), expect: ['child nodes are not allowed for this element'] })
     }
   })
@@ -149,6 +160,12 @@ function runShard(info, thorough) {
         if (r2[i].panic) { rep.violation(`C15|compiler-panic|${fam}`, `the compiler panics on ${JSON.stringify(j.inj.text)}`, { engine: 'c15', src: j.inj.text, kind: 'panic' }); return }
         const ds = r2[i].diags['d/m'] || []
         checkLocations(j.inj.text, ds, rep, j.inj.name)
+        if (j.inj.benign) {
+          const bad = ds.filter((d) => d.level >= LEVEL.Warn)
+          rep.outcome([fam, 'benign', bad.length])
+          if (bad.length) rep.violation(`C15|well-formed-input-flagged:${bad[0].kind}|${fam}`, `the well-formed variation "${j.inj.name}" of ${JSON.stringify(j.base)} gives ${JSON.stringify(j.inj.text)} and produces ${JSON.stringify(bad.map((d) => d.kind + ' (level ' + d.level + ')'))}`, { engine: 'c15', src: j.inj.text, kind: 'clean' })
+          return
+        }
         const hit = ds.filter((d) => j.inj.expect.includes(d.kind))
         rep.outcome([fam, hit.length > 0, ds.length])
         if (!hit.length) {
